@@ -78,6 +78,19 @@ CHECKS = {
             'backs the termination clause',
             'deterministic simulation: simulated transport with fault '
             'injection on the reply stream, outcome-class oracle'),
+    'C19': ('wire', 'exploration',
+            'paired execution: the same seeded world (repository, operation '
+            'program, reply faults) runs bare and under a generated observer '
+            'configuration (loggers with every detail level incl. integers, '
+            'recorders, statistics, debug); outcomes, bytes sent, '
+            'last_raw_request/reply, statistics counts and password secrecy '
+            'are compared',
+            'determinism of the world makes the observers the only '
+            'difference (the exchanged request bytes of both executions are '
+            'compared as a cross-check); statistics clause skipped for '
+            'programs with Iter operations',
+            'deterministic simulation: replay of one seeded world under '
+            'observer configurations, differential oracle'),
 }
 
 ENGINES = [
